@@ -22,6 +22,7 @@ import (
 	"strconv"
 	"strings"
 	"sync"
+	"sync/atomic"
 	"syscall"
 	"time"
 
@@ -251,6 +252,84 @@ func judge(w *witness) (string, string, string) {
 	for _, g := range got {
 		if !wm[g] {
 			return classify(w, g, false), fmt.Sprintf("FindAllBuildFiles(root=%q) blacklist=%v experimental=%v on dirs=%v builds=%v file=%q: got %v, want %v (unexpected %s)", w.Root, w.Blacklist, w.Experimental, w.Dirs, w.Builds, w.File, got, want, g), g
+		}
+	}
+	// the same expansion as the command line does it: the pattern alone, and after an earlier pattern that covers it
+	// (`plz build //... //exp/...`): every pattern of an invocation expands to its own packages, whatever came before it
+	if c, d, p := judgeCommandLine(w, want); c != "" {
+		return c, d, p
+	}
+	return "", "", ""
+}
+
+var cmdlineEvals int64
+
+func sortedSet(m map[string]bool) []string {
+	ks := make([]string, 0, len(m))
+	for k := range m {
+		ks = append(ks, k)
+	}
+	sort.Strings(ks)
+	return ks
+}
+
+func labelOf(root string) core.BuildLabel { return core.NewBuildLabel(root, "...") }
+
+func judgeCommandLine(w *witness, want []string) (string, string, string) {
+	if len(w.Blacklist) == 0 && len(w.Experimental) == 0 {
+		return "", "", "" // nothing is pruned: covered by the walk itself
+	}
+	c := configs[strings.Join(w.Blacklist, ",")+"|"+strings.Join(w.Experimental, ",")]
+	pkgsOf := func(files []string) map[string]bool {
+		m := map[string]bool{}
+		for _, f := range files {
+			d := filepath.Dir(f)
+			if d == "." {
+				d = ""
+			}
+			m[d] = true
+		}
+		return m
+	}
+	check := func(targets []core.BuildLabel, wantPkgs map[string]bool, what string) (string, string, string) {
+		atomic.AddInt64(&cmdlineEvals, 1)
+		got := map[string]bool{}
+		for _, l := range plz.VerifOriginalTargetsC22(c, targets) {
+			got[l.PackageName] = true
+		}
+		for _, p := range sortedSet(wantPkgs) {
+			if !got[p] {
+				return "cmdline:" + what + ":package-missing", fmt.Sprintf("targets %v blacklist=%v experimental=%v on dirs=%v builds=%v: package %q is not among the original targets %v", targets, w.Blacklist, w.Experimental, w.Dirs, w.Builds, p, got), filepath.Join(p, "BUILD")
+			}
+		}
+		for _, p := range sortedSet(got) {
+			if !wantPkgs[p] {
+				return "cmdline:" + what + ":package-extra", fmt.Sprintf("targets %v blacklist=%v experimental=%v on dirs=%v builds=%v: package %q is among the original targets but in no pattern's expansion", targets, w.Blacklist, w.Experimental, w.Dirs, w.Builds, p), filepath.Join(p, "BUILD")
+			}
+		}
+		return "", "", ""
+	}
+	own := pkgsOf(want)
+	if c, d, p := check([]core.BuildLabel{labelOf(w.Root)}, own, "single-pattern"); c != "" {
+		return c, d, p
+	}
+	// an earlier pattern rooted at every proper ancestor of this root (the repository root included)
+	for a := w.Root; a != ""; {
+		a = parentOf(a)
+		wa := *w
+		wa.Root = a
+		if belowPathBlacklisted(&wa, a) || (a != "" && (blacklisted(w.Blacklist, a) || strings.HasPrefix(baseOf(a), "."))) {
+			continue // such a root's own expansion is unspecified
+		}
+		union := pkgsOf(expected(&wa))
+		for p := range own {
+			union[p] = true
+		}
+		if c, d, p := check([]core.BuildLabel{labelOf(a), labelOf(w.Root)}, union, "after-a-covering-pattern"); c != "" {
+			return c, d, p
+		}
+		if c, d, p := check([]core.BuildLabel{labelOf(w.Root), labelOf(a)}, union, "before-a-covering-pattern"); c != "" {
+			return c, d, p
 		}
 	}
 	return "", "", ""
